@@ -21,6 +21,7 @@ type globalFact struct {
 	id     int // distinct object index for &T{...} literals
 	seqLen int // for slice literals: number of elements (-1 unknown)
 	elems  []constant.Value
+	isStr  bool // elements are string constants (array of strings initialised by index)
 }
 
 func isInitFunc(fn *ssa.Function) bool {
@@ -63,6 +64,44 @@ func (u *Universe) computeGlobalFacts() {
 	init := u.pkg.Func("init")
 	if init == nil {
 		return
+	}
+	// arrays initialised element by element: g[k] = const (e.g. the token text table)
+	for _, b := range init.Blocks {
+		for _, in := range b.Instrs {
+			st, ok := in.(*ssa.Store)
+			if !ok {
+				continue
+			}
+			ia, ok := st.Addr.(*ssa.IndexAddr)
+			if !ok {
+				continue
+			}
+			g, ok := ia.X.(*ssa.Global)
+			if !ok {
+				continue
+			}
+			at, ok := g.Type().Underlying().(*types.Pointer).Elem().Underlying().(*types.Array)
+			if !ok {
+				continue
+			}
+			ic, ok1 := ia.Index.(*ssa.Const)
+			vc, ok2 := st.Val.(*ssa.Const)
+			gf := u.globalFacts[g.Name()]
+			if gf == nil {
+				gf = &globalFact{seqLen: int(at.Len()), elems: make([]constant.Value, at.Len())}
+				if b, ok := at.Elem().Underlying().(*types.Basic); ok && b.Info()&types.IsString != 0 {
+					gf.isStr = true
+				}
+				u.globalFacts[g.Name()] = gf
+			}
+			if !ok1 || !ok2 || ic.Value == nil || vc.Value == nil {
+				gf.elems = nil // not constant: no facts
+				continue
+			}
+			if idx, exact := constant.Int64Val(ic.Value); exact && gf.elems != nil && idx >= 0 && idx < at.Len() {
+				gf.elems[idx] = vc.Value
+			}
+		}
 	}
 	nid := 0
 	for _, b := range init.Blocks {
@@ -255,6 +294,21 @@ func (u *Universe) checkGlobalFacts() {
 			}
 			var s []cval
 			for _, e := range gf.elems {
+				if gf.isStr {
+					str := ""
+					if e != nil {
+						str = constant.StringVal(e)
+					}
+					var bs []cval
+					for i := 0; i < len(str); i++ {
+						bs = append(bs, int64(str[i]))
+					}
+					if bs == nil {
+						bs = []cval{}
+					}
+					s = append(s, bs)
+					continue
+				}
 				if e == nil {
 					g.ok, g.err = false, "global "+name+" has non-constant elements"
 					break
